@@ -170,9 +170,13 @@ def unit_pump(mode, tpm_type_name="Command"):
                 return (yield from I.next_(it))
             source.ops.append("next")
             if G.exhausted:
+                if len(args) > 1:
+                    return args[1]
                 raise PyExc(StopIteration(), "source")
             if ctx.fork([z3.BoolVal(True), z3.BoolVal(True)], "source") == 1:
                 G.exhausted = True
+                if len(args) > 1:
+                    return args[1]
                 raise PyExc(StopIteration(), "source")
             b = ctx.fresh_int("b", 0, 255)
             G.pulled = z3.simplify(G.pulled + 1)
